@@ -353,6 +353,9 @@ fn cmd_replay(args: &[String]) -> i32 {
         return 2;
     };
     let res = pool::run_spec_in_child(&prop, &rf.spec, 300.0);
+    for l in &res.log {
+        println!("  {l}");
+    }
     println!(
         "replay {}: outcome={} class={} msg={}",
         path, res.outcome, res.class, res.msg
